@@ -301,17 +301,21 @@ def detect_ways(ctx, kind, sample, data, tmp):
                 # explicitly: the explicit filename is what detection goes by
                 anon = os.path.join(tmp, "anon_%d" % (ctx.oracle_cases % 7))
                 shutil.copyfile(path, anon)
-                with open(anon, "rb") as h:
-                    try:
-                        o = mutagen.File(h, filename=path)
-                        r2 = type(o).__name__
-                    except mutagen.MutagenError:
-                        r2 = "MutagenError"
-                    except Exception as e:
-                        r2 = "EXC:" + type(e).__name__
-                if r2 != ref:
-                    ctx.violation("oracle", "C17 %s: mutagen.File(fileobj, filename=...) on the %sfile gives %s but %s through its str path (the file object has an extension-less name of its own)" % (kind.name, lab, r2, ref),
-                                  {"runner": "c17.ways", "kind": kind.name, "sample": sample, "way": "detect-fileobj+filename"})
+                for nform, narg in (("str", path), ("bytes", os.fsencode(path)), ("path", pathlib.Path(path))):
+                    for fform in ("positional", "fileobj="):
+                        with open(anon, "rb") as h:
+                            try:
+                                o = mutagen.File(h, filename=narg) if fform == "positional" else mutagen.File(fileobj=h, filename=narg)
+                                r2 = type(o).__name__
+                            except mutagen.MutagenError:
+                                r2 = "MutagenError"
+                            except Exception as e:
+                                r2 = "EXC:" + type(e).__name__
+                        ctx.oracle_cases += 1
+                        if r2 != ref:
+                            ctx.violation("oracle", "C17 %s: mutagen.File(<file object, %s>, filename=<%s>) on the %sfile gives %s but %s through its str path (the file object has an extension-less name of its own)" % (
+                                kind.name, fform, nform, lab, r2, ref),
+                                {"runner": "c17.ways", "kind": kind.name, "sample": sample, "way": "detect-fileobj+filename-%s-%s" % (fform, nform)})
             if r != ref:
                 ctx.violation("oracle", "C17 %s: mutagen.File on the %sfile gives %s through %s but %s through its str path" % (kind.name, lab, r, way, ref),
                               {"runner": "c17.ways", "kind": kind.name, "sample": sample, "way": "detect-" + way})
